@@ -43,6 +43,8 @@ static int freestack[MAXBLK]; static int nfree;
 static int cur_tag;
 static int cidx[MAXBLK], ncidx, fidx[1024], nfidx;
 static int far_count;
+static int force_far;             /* the next allocations go to the far region, 6 GiB apart (sa_force_far) */
+void sa_force_far(int on) { force_far = on; }
 uint64_t sa_stat_moves, sa_stat_inplace, sa_stat_reuses, sa_stat_allocs, sa_stat_frees;
 static int arena_ok;
 
@@ -222,7 +224,7 @@ static int new_slot(size_t size)
     if (nblk >= MAXBLK) sim_skip("allocator-slots-exhausted");
     b = &blk[nblk];
     memset(b, 0, sizeof(*b));
-    if (cfg.place == PLACE_FAR && cap <= 65536 && far_count < 600 && rng_chance(&arng, 1, 2)) {
+    if (((cfg.place == PLACE_FAR && rng_chance(&arng, 1, 2)) || force_far) && cap <= 65536 && far_count < 600) {
         b->far = 1;
         fidx[nfidx++] = nblk;
         b->addr = far_bump + REDZONE;
